@@ -11,7 +11,7 @@ use serde_json::{json, Value};
 use std::sync::atomic::Ordering;
 use std::sync::Arc;
 
-pub const COUNTERS: &[&str] = &["histories", "operations", "moves_accepted", "illegal_moves_refused", "offers", "accepts_granted", "accepts_refused", "declares_attempted", "resignations", "results_reached", "post_result_operations_refused", "full_move_value_sweeps", "roots", "long_prefix_histories"];
+pub const COUNTERS: &[&str] = &["histories", "operations", "moves_accepted", "illegal_moves_refused", "offers", "accepts_granted", "accepts_refused", "declares_attempted", "resignations", "results_reached", "post_result_operations_refused", "full_move_value_sweeps", "roots", "long_prefix_histories", "one_ply_starts", "long_game_histories"];
 
 pub const GAME_ROOTS: &[&str] = &[
     "rnbqkbnr/pppppppp/8/8/8/8/PPPPPPPP/RNBQKBNR w KQkq - 0 1",
@@ -183,7 +183,7 @@ fn depth_for(p: &RefPos, budget: f64, cap: u32) -> u32 {
     d
 }
 
-pub const RULE: &str = "histories = every sequence of operations up to depth d (d chosen per root so that menu^d stays within the budget: 3-4 on dense roots, up to 7 on roots with few moves) from 36 roots (start position, sparse endings, mate-in-one, stalemate-in-one, already mated, already stalemated, en passant, promotion, castling; each also colour-mirrored). Menu at each history: every legal move; a structured illegal set (pseudo-legal-but-illegal moves, wrong promotion field, enemy man, empty square, a move legal one ply earlier); offer_draw(W|B), accept_draw, declare_draw, resign(W|B); at depth <= 1 additionally all 20480 move values. After every operation: return value, result(), current_position(), side_to_move(), actions(), can_declare_draw() against the reference automaton; once a result exists every operation must be refused and change nothing. Additionally, from K+R v K roots quiet prefixes of 99..=102 half-moves (repetition-free C11 fillers, and a plain shuffle cycle that keeps a mate in one available throughout) are followed by every operation sequence of depth 2. states = histories, transitions = operations executed. distinct_nontrivial = histories that end in a result";
+pub const RULE: &str = "histories = every sequence of operations up to depth d (d chosen per root so that menu^d stays within the budget: 3-4 on dense roots, up to 7 on roots with few moves) from 36 roots (start position, sparse endings, mate-in-one, stalemate-in-one, already mated, already stalemated, en passant, promotion, castling; each also colour-mirrored). Menu at each history: every legal move; a structured illegal set (pseudo-legal-but-illegal moves, wrong promotion field, enemy man, empty square, a move legal one ply earlier); offer_draw(W|B), accept_draw, declare_draw, resign(W|B); at depth <= 1 additionally all 20480 move values. After every operation: return value, result(), current_position(), side_to_move(), actions(), can_declare_draw() against the reference automaton; once a result exists every operation must be refused and change nothing. Additionally, from K+R v K roots quiet prefixes of 99..=102 half-moves (repetition-free C11 fillers, and a plain shuffle cycle that keeps a mate in one available throughout) are followed by every operation sequence of depth 2. One-ply legality sweep: a game from every curated root, every feature-covering root and every member of the en-passant families (one and two capturers), offered every legal and every pseudo-legal-but-illegal move. Long games with deviations: two quiet scripted games of 300 half-moves with one non-move operation (offer by either colour, accept, claim) spliced in before EVERY action index (thorough: also pairs at distances 1, 2, 31..33, 63..65, 127..129), observers compared after every operation. states = histories, transitions = operations executed. distinct_nontrivial = histories that end in a result";
 
 pub fn run(tier: Tier) -> i32 {
     let run = Arc::new(Run::new("C10", tier, COUNTERS));
@@ -289,6 +289,119 @@ pub fn run(tier: Tier) -> i32 {
         run.add("long_prefix_histories", 1);
         dfs(&cx, &refg, &lib, &mut ops, 2, None);
     });
+    // (c) one-ply legality sweep: a game started from EVERY curated root, every feature-covering root and
+    // every member of the two-pawn en-passant families; every legal move and every pseudo-legal-but-illegal
+    // move is offered to make_move on a clone (accepted iff legal, observers compared afterwards)
+    if !run.has_violation() {
+        let mut starts: Vec<RefPos> = crate::universe::roots().into_iter().map(|r| r.pos).collect();
+        starts.extend(crate::universe::feature_roots());
+        let e1 = crate::universe::EpFamily { extra: crate::universe::Extra::None, pre_push: false };
+        let e2 = crate::universe::EpTwoFamily { extra: crate::universe::Extra::None, pre_push: false };
+        starts.extend(crate::universe::collect(&e1));
+        starts.extend(crate::universe::collect(&e2));
+        starts.par_iter().for_each(|start| {
+            if run.has_violation() || run.over_budget() {
+                return;
+            }
+            let refg = RefGame::new(*start);
+            let lib = match new_game(start) {
+                Ok(g) => g,
+                Err(e) => {
+                    eprintln!("MACHINERY FAILURE: game start {} rejected: {e}", start.fen());
+                    std::process::exit(2);
+                }
+            };
+            run.add("one_ply_starts", 1);
+            run.states.fetch_add(1, Ordering::Relaxed);
+            let mut all: Vec<RMove> = start.legal_moves();
+            all.extend(start.illegal_pseudo_moves());
+            for m in all {
+                let op = GOp::Move(m);
+                let (mut r2, mut l2) = (refg.clone(), lib.clone());
+                guard::crumb_text(&format!("game from {} op {}", start.fen(), op.name()));
+                run.transitions.fetch_add(1, Ordering::Relaxed);
+                match step(&mut r2, &mut l2, &op) {
+                    Err(f) => {
+                        run.report(Violation::new("C10", f.clause, &f.shape, format!("{}\n  start {}\n  operations {:?}", f.detail, start.fen(), vec![op.name()]), case_json(start, &[op])));
+                        return;
+                    }
+                    Ok(info) => count(&run, &op, &info, refg.result().is_some()),
+                }
+            }
+        });
+    }
+    // (d) long games with one deviation: a quiet scripted game of 300 half-moves (the C11 filler) is the
+    // default behaviour; a non-move operation (offer by either colour, accept, claim) is spliced in before
+    // EVERY action index (thorough: also every pair of indices i < j with j - i in a stride); the script then
+    // continues to its end.  Observers are compared after every operation, so bookkeeping that depends on the
+    // LENGTH of the action log (snapshots, parity, counters) is exercised at every length.
+    if !run.has_violation() {
+        let scripts: Vec<(RefPos, Vec<GOp>)> = [0usize, 3].iter().filter_map(|i| {
+            let start = RefPos::from_fen(super::c11::FILLER_ROOTS[*i]).expect("machinery: filler root");
+            super::c11::build_history(&start, &[], 300).map(|h| (start, h))
+        }).collect();
+        let devs = [GOp::Offer(Col::W), GOp::Offer(Col::B), GOp::Accept, GOp::Declare];
+        let mut jobs3: Vec<(usize, Vec<(usize, GOp)>)> = vec![];
+        for (si, (_, h)) in scripts.iter().enumerate() {
+            jobs3.push((si, vec![]));
+            for i in 0..=h.len() {
+                for d in devs {
+                    jobs3.push((si, vec![(i, d)]));
+                }
+            }
+            if tier == Tier::Thorough {
+                for i in (0..h.len()).step_by(3) {
+                    for gap in [1usize, 2, 31, 32, 63, 64, 65, 127, 128, 129] {
+                        if i + gap <= h.len() {
+                            for d1 in devs {
+                                for d2 in devs {
+                                    jobs3.push((si, vec![(i, d1), (i + gap, d2)]));
+                                }
+                            }
+                        }
+                    }
+                }
+            }
+        }
+        jobs3.par_iter().for_each(|(si, dv)| {
+            if run.has_violation() || run.over_budget() {
+                return;
+            }
+            let (start, script) = &scripts[*si];
+            let mut full: Vec<GOp> = vec![];
+            for (i, op) in script.iter().enumerate() {
+                for (at, d) in dv.iter() {
+                    if *at == i {
+                        full.push(*d);
+                    }
+                }
+                full.push(*op);
+            }
+            for (at, d) in dv.iter() {
+                if *at == script.len() {
+                    full.push(*d);
+                }
+            }
+            let mut refg = RefGame::new(*start);
+            let mut lib = new_game(start).expect("machinery: script root");
+            let mut ops: Vec<GOp> = vec![];
+            run.add("long_game_histories", 1);
+            run.states.fetch_add(1, Ordering::Relaxed);
+            for op in full.iter() {
+                ops.push(*op);
+                guard::crumb_text(&format!("long game from {} deviations {:?} action {}", start.fen(), dv.iter().map(|(i, d)| format!("{}@{}", d.name(), i)).collect::<Vec<_>>(), ops.len()));
+                run.transitions.fetch_add(1, Ordering::Relaxed);
+                let had = refg.result().is_some();
+                match step(&mut refg, &mut lib, op) {
+                    Err(f) => {
+                        run.report(Violation::new("C10", f.clause, &f.shape, format!("{}\n  start {}\n  long game, deviations {:?}, failing at action {}", f.detail, start.fen(), dv.iter().map(|(i, d)| format!("{} before action {}", d.name(), i)).collect::<Vec<_>>(), ops.len()), case_json(start, &ops)));
+                        return;
+                    }
+                    Ok(info) => count(&run, op, &info, had),
+                }
+            }
+        });
+    }
     run.sample(json!({"kind": "history", "start": GAME_ROOTS[1], "ops": ["offer_draw(B)", "d8h4", "accept_draw"], "expect": "accept refused: the move mated, the game has a result"}));
     run.sample(json!({"kind": "history", "start": GAME_ROOTS[0], "ops": ["offer_draw(W)", "e2e4", "accept_draw", "resign(B)"], "expect": "accept granted (mover offered just before the move); resign refused afterwards"}));
     run.assume("offer_draw / resign in an open game and accept_draw with a pending offer may return either value (the statement fixes only refusals); whatever is returned must be reflected consistently by actions(), result() and the other observers");
